@@ -93,13 +93,22 @@ func genC07(c *Ctx, r *rng.R, i int) {
 	a := gt.Gen(r, cfg)
 	var b *gt.T
 	rel := ""
-	switch r.Intn(4) {
-	case 0:
+	switch r.Intn(9) {
+	case 0, 1:
 		b, rel = a.Clone(), "same"
-	case 1, 2:
+	case 2, 3, 4:
 		b, rel = gt.Mutate(r, a, cfg), "mutant"
-	default:
+	case 5, 6:
 		b, rel = gt.Gen(r, cfg), "independent"
+	default:
+		// as many optional attributes on both sides, under different names
+		if a1 := gt.MoveOpt(r, a); a1 != nil {
+			if b1 := gt.MoveOpt(r, a1); b1 != nil {
+				a, b, rel = a1, b1, "optional-moved"
+				break
+			}
+		}
+		b, rel = gt.Mutate(r, a, cfg), "mutant"
 	}
 	A, B := a.Build(), b.Build()
 	desc := map[string]string{"a": a.String(), "b": b.String(), "rel": rel}
